@@ -830,8 +830,9 @@ func rulesC20(w *World, r *Report) {
 	}
 	r.Rule("C20.R4", "derives-from: every generated value is Value(rnd.Intn(max+1)) or the result of randomValWithHighSum; every generated time is thisUntil.Add(-(n-1-i)*step) with thisUntil = until.Truncate(step)", 2)
 	if rp := need(w, r, "C20.R4", w.Cmd, "randomPoints"); rp != nil {
-		var vOK, tOK bool
+		var vOK, tOK, sawIntn, sawHigh bool
 		var vGot, tGot string
+		nValueStores := 0
 		eachInstr(rp, func(in ssa.Instruction) {
 			st, ok := in.(*ssa.Store)
 			if !ok {
@@ -840,8 +841,25 @@ func rulesC20(w *World, r *Report) {
 			ex := newExprCtx(w)
 			a, v := ex.expr(st.Addr), ex.expr(st.Val)
 			if strings.HasSuffix(a, ".Value") {
-				vGot = v
-				vOK = regexp.MustCompile(`^phi\(\(\*math/rand\.Rand\)\.Intn\(p3, \(p4 \+ 1\)\)\|cmd\.randomValWithHighSum\(.*\)\)$`).MatchString(v)
+				// one store of a phi, or one store per branch: each stored value is the plain random value or the high-sum helper
+				one := regexp.MustCompile(`^(\(\*math/rand\.Rand\)\.Intn\(p3, \(p4 \+ 1\)\)|cmd\.randomValWithHighSum\(.*\))$`)
+				both := regexp.MustCompile(`^phi\(\(\*math/rand\.Rand\)\.Intn\(p3, \(p4 \+ 1\)\)\|cmd\.randomValWithHighSum\(.*\)\)$`)
+				okThis := both.MatchString(v) || one.MatchString(v)
+				if nValueStores == 0 {
+					vOK = okThis
+				} else {
+					vOK = vOK && okThis
+				}
+				nValueStores++
+				if !okThis || vGot == "" {
+					vGot = v
+				}
+				if strings.Contains(v, "Intn(") {
+					sawIntn = true
+				}
+				if strings.Contains(v, "randomValWithHighSum(") {
+					sawHigh = true
+				}
 			}
 			if strings.HasSuffix(a, ".Time") {
 				tGot = v
@@ -873,6 +891,18 @@ func rulesC20(w *World, r *Report) {
 								return "S", true
 							}
 							return "", false
+						}
+						// the slot loop covers 0..N-1
+						var ctr *ssa.Phi
+						switch x := idx.(type) {
+						case *ssa.Phi:
+							ctr = x
+						case *ssa.BinOp:
+							ctr, _ = x.X.(*ssa.Phi)
+						}
+						if ctr == nil || !(loopFromTo(ctr, 0) || loopFromTo(ctr, -1)) {
+							tOK = false
+							tGot = "the slots are not filled by a loop counting from 0 while below the number of points"
 						}
 						got := polyOf(w, c.Common().Args[1], names)
 						want := poly{"N*S": -1, "S": 1, "S*i": 1}
@@ -918,6 +948,11 @@ func rulesC20(w *World, r *Report) {
 				if op == token.EQL && xs > ys {
 					xs, ys = ys, xs
 				}
+				// `t < start`: the slot's time (an offset from the truncated until) is the smaller side
+				if op == token.LSS && !strings.HasPrefix(xs, "whispertool.Timestamp.Add(whispertool.Timestamp.Truncate(") {
+					conds["inverted: "+xs+" < "+ys] = true
+					continue
+				}
 				conds[xs+" "+op.String()+" "+ys] = true
 			}
 			var cl []string
@@ -926,12 +961,13 @@ func rulesC20(w *World, r *Report) {
 			}
 			okB := len(conds) == 2
 			for c := range conds {
-				if !(strings.HasPrefix(c, "0 == ") || strings.Contains(c, " < ")) || strings.Contains(c, " <= ") {
+				if !(strings.HasPrefix(c, "0 == ") || strings.Contains(c, " < ")) || strings.Contains(c, " <= ") || strings.HasPrefix(c, "inverted: ") {
 					okB = false
 				}
 			}
 			r.Check(okB, "C20.R4", "randomPoints:plain-random-only-before-finer-data", w.instrPos(intn), "a slot gets a plain random value only if there is no finer data or t < the first slot holding finer data", "a coarser slot that holds finer data can get a plain random value instead of the finer sum (conditions selecting the plain value: "+strings.Join(cl, " || ")+"; expected `start == 0 || t < start`)")
 		}
+		vOK = vOK && sawIntn && sawHigh
 		r.Check(vOK, "C20.R4", "randomPoints:values", w.pos(rp.Pos()), "values are Intn(max+1) or the high-sum helper", "a generated value is not rnd.Intn(rndMax+1) or randomValWithHighSum(...): "+vGot)
 		r.Check(tOK, "C20.R4", "randomPoints:times", w.pos(rp.Pos()), "times are offsets from the step-truncated until", "a generated time is not an offset from until.Truncate(step): "+tGot)
 	}
